@@ -172,4 +172,22 @@ DirAssetsAgree ==
     \A exts \in DirLists : \A d \in {Root} \cup dirs :
         /\ CodeDirIds(d, exts) = RefDirIds(d, exts)
         /\ (d \notin badDirs => CodeRecIds(d, exts) = RefRecIds(d, exts))
+
+(* A type may override sub_directories (DirLoadable, src/dirs.rs:71-90): F is the set of directories it    *)
+(* follows.  What RecursiveDirectory computes from the type's own answers (CodeRecIdsF) is the union over *)
+(* the followed, readable part of the subtree (RefRecIdsF); following everything is the default          *)
+(* behaviour, following nothing is load_dir, and Arc<T> delegates both functions to T (same F).          *)
+RECURSIVE RefRecIdsF(_, _, _)
+RefRecIdsF(d, exts, F) ==
+    RefDirIds(d, exts) \cup UNION {RefRecIdsF(c, exts, F) : c \in {q \in dirs : ParentOf(q) = d /\ q \in F /\ q \notin badDirs}}
+RECURSIVE CodeRecIdsF(_, _, _)
+CodeRecIdsF(d, exts, F) ==
+    CodeDirIds(d, exts) \cup
+    UNION {IF c.id \in badDirs THEN {} ELSE CodeRecIdsF(c.id, exts, F) : c \in {x \in RefChildren(d) : x.k = "dir" /\ x.id \in F}}
+FollowAgrees ==
+    \A exts \in DirLists : \A d \in ({Root} \cup dirs) \ badDirs :
+        /\ RefRecIdsF(d, exts, dirs) = RefRecIds(d, exts)
+        /\ RefRecIdsF(d, exts, {}) = RefDirIds(d, exts)
+        /\ \A F \in SUBSET dirs : /\ CodeRecIdsF(d, exts, F) = RefRecIdsF(d, exts, F)
+                                  /\ RefRecIdsF(d, exts, F) \subseteq RefRecIds(d, exts)
 ==============================================================================
